@@ -29,7 +29,11 @@ def run_bytes_literals(res):
 
     from ..kernel import cold
 
+    import re
+
     cases = [
+        (re.Pattern, [re.compile("a+", re.I), re.compile("a", re.M | re.S), re.compile(b"a+"), re.compile(b"x", re.I)]),
+        (list[re.Pattern], [[re.compile("a", re.I), re.compile(b"b")]]),
         (typing.Literal[b"ab"], [b"ab"]),
         (typing.Literal[b"ab", "ab"], [b"ab", "ab"]),
         (typing.Literal[b"1", "1", 1], [b"1", "1", 1]),
